@@ -1,19 +1,21 @@
 #!/bin/bash
-# verify_seed.sh <ID>: independently confirm a seeded change kept in /tmp/seed-<ID>:
-# builds with the patch, runs the pinned suite (stable_pass must pass), runs the demo with and without the patch.
-ID=$1
-W=/tmp/seed-$ID/repo; OUT=/tmp/seed-$ID/out; LOG=/tmp/seed-$ID/verify.log
+# verify_seed.sh <ID> [variant]: independently confirm a seeded change delivered in /tmp/seed-<ID>/out[/<variant>]:
+# applies patch.diff to the clean scratch worktree /tmp/seed-<ID>/repo, builds, runs the pinned suite
+# (every stable_pass test of BASELINE.json must pass), runs the demo with and without the patch, leaves the worktree clean.
+ID=$1; V=${2:-}
+W=/tmp/seed-$ID/repo; OUT=/tmp/seed-$ID/out${V:+/$V}; LOG=/tmp/seed-$ID/verify${V:+-$V}.log
 export CARGO_NET_OFFLINE=true CARGO_TARGET_DIR=/tmp/seed-$ID/target RUST_BACKTRACE=0
 cd $W || exit 2
 {
-echo "== diff stat"; git diff --stat
+git checkout -q -- . ; git clean -fdq tests 2>/dev/null
+echo "== apply"; git apply $OUT/patch.diff && git diff --stat
 echo "== build with patch"; cargo build --offline 2>&1 | tail -2
 echo "== suite with patch"
 cargo nextest run --workspace --no-fail-fast --tool-config-file pb:/w/lib/nextest.toml --profile pb --test-threads 8 --offline >/dev/null 2>&1
 python3 - <<PY
 import json,xml.etree.ElementTree as ET
 base=json.load(open('/root/.vp/BASELINE.json'))
-root=ET.parse('$W/target/nextest/pb/junit.xml').getroot()
+root=ET.parse('$CARGO_TARGET_DIR/nextest/pb/junit.xml').getroot()
 passed=set()
 for tc in root.iter('testcase'):
     tid=(tc.get('classname') or '')+'::'+(tc.get('name') or '')
@@ -21,14 +23,12 @@ for tc in root.iter('testcase'):
 missing=[t for t in base['stable_pass'] if t not in passed]
 print('stable tests passing with patch: %d/%d' % (len(base['stable_pass'])-len(missing), len(base['stable_pass'])), missing[:5])
 PY
+git clean -fdq tests 2>/dev/null
 TC=$CARGO_TARGET_DIR/debug/truth-core
-echo "== demo WITH patch"; (cd $W && TRUTH_CORE=$TC bash $OUT/demo.sh $TC >/tmp/seed-$ID/demo_with.log 2>&1; echo "exit=$?")
-git stash -q
+echo "== demo WITH patch"; (cd $W && TRUTH_CORE=$TC bash $OUT/demo.sh $TC >/tmp/seed-$ID/demo_with${V:+-$V}.log 2>&1; echo "exit=$?")
+git checkout -q -- .
 echo "== build without patch"; cargo build --offline 2>&1 | tail -1
-echo "== demo WITHOUT patch"; (cd $W && TRUTH_CORE=$TC bash $OUT/demo.sh $TC >/tmp/seed-$ID/demo_without.log 2>&1; echo "exit=$?")
-git stash pop -q
+echo "== demo WITHOUT patch"; (cd $W && TRUTH_CORE=$TC bash $OUT/demo.sh $TC >/tmp/seed-$ID/demo_without${V:+-$V}.log 2>&1; echo "exit=$?")
 git status --short | grep -v snap.new
-rm -rf $CARGO_TARGET_DIR
-git clean -fdq tests/stderr-snapshots 2>/dev/null
 } > $LOG 2>&1
 tail -12 $LOG
